@@ -18,24 +18,29 @@ var confirmedCounts = map[string]map[string][2]int{ // rule -> prop -> {default,
 	"R9":  {"C20": {14, 14}},
 	"R10": {"C10": {61, 70}},
 	"R11": {"C07": {3, 3}, "C08": {3, 3}},
-	"R12": {"C07": {16, 17}},
+	"R12": {"C06": {11, 11}, "C07": {16, 17}, "C13": {5, 5}},
 	"R13": {"C01": {5, 5}, "C03": {5, 5}, "C06": {9, 9}, "C09": {9, 9}},
 	"R14": {"C01": {28, 28}, "C04": {28, 28}, "C09": {28, 28}},
 	"R15": {"C03": {4, 4}, "C04": {8, 8}, "C05": {2, 2}},
 	"R16": {"C05": {2, 2}},
 	"R17": {"C05": {5, 5}, "C06": {5, 5}},
 	"R18": {"C06": {2, 2}, "C13": {4, 4}, "C15": {0, 3}},
-	"R19": {"C02": {6, 6}},
+	"R19": {"C02": {7, 7}},
 	"R20": {"C03": {2, 2}},
 	"R21": {"C16": {0, 4}},
 	"R22": {"C16": {0, 16}},
 	"R23": {"C14": {0, 14}},
 	"R24": {"C05": {4, 4}, "C06": {5, 5}, "C13": {2, 2}, "C15": {1, 3}},
-	"R25": {"C05": {6, 6}, "C06": {16, 16}, "C13": {9, 9}, "C15": {1, 5}},
+	"R25": {"C05": {6, 6}, "C06": {18, 18}, "C09": {17, 17}, "C13": {9, 9}, "C15": {1, 5}},
 	"R26": {"C02": {1, 1}, "C03": {4, 4}, "C04": {3, 3}, "C05": {5, 5}, "C06": {4, 4}, "C13": {2, 2}},
 	"R27": {"C02": {3, 3}, "C03": {2, 2}, "C04": {3, 3}, "C09": {9, 9}},
 	"R28": {"C01": {3, 3}, "C06": {7, 7}},
 	"R29": {"C01": {3, 3}, "C06": {3, 3}},
+	"R30": {"C01": {2, 2}, "C09": {2, 2}},
+	"R31": {"C01": {3, 3}, "C03": {2, 2}, "C06": {1, 1}, "C07": {3, 3}},
+	"R32": {"C06": {7, 7}, "C08": {7, 7}, "C09": {7, 7}},
+	"R33": {"C02": {2, 2}, "C05": {2, 2}, "C06": {1, 1}},
+	"R34": {"C06": {2, 2}},
 }
 
 func floorFor(rule string) func(cfg Config, prop string) int {
